@@ -42,6 +42,8 @@ type Ctx struct {
 	ruleOrder []string
 	controls  []string
 	info      map[string]interface{}
+	alias     string // sub-context: report under this rule id of parent
+	parent    *Ctx
 }
 
 func newCtx(p *Program, prop, tier string) *Ctx {
@@ -51,6 +53,9 @@ func newCtx(p *Program, prop, tier string) *Ctx {
 // Rule declares a rule: id (without property prefix), words, and the minimum
 // number of instances confirmed by hand on the pinned tree.
 func (c *Ctx) Rule(id, doc string, floor int) {
+	if c.parent != nil {
+		return
+	}
 	id = c.Prop + "." + id
 	if _, ok := c.ruleDoc[id]; !ok {
 		c.ruleOrder = append(c.ruleOrder, id)
@@ -60,6 +65,10 @@ func (c *Ctx) Rule(id, doc string, floor int) {
 }
 
 func (c *Ctx) add(rule, construct string, pos token.Pos, detail string, ok bool) {
+	if c.parent != nil {
+		c.parent.add(c.alias, construct, pos, detail, ok)
+		return
+	}
 	c.Instances = append(c.Instances, Instance{Rule: c.Prop + "." + rule, Construct: construct, Pos: c.P.pos(pos), Detail: detail, OK: ok})
 }
 
